@@ -4,11 +4,10 @@ From SV Require Import C16.KnapCore C16.Knapsack C16.BinPack.
 Import ListNotations.
 
 (* total size of the items assigned to bin b *)
-Fixpoint load (sizes : list Q) (asg : list nat) (b : nat) : Q :=
-  match sizes, asg with
-  | s :: sizes', a :: asg' => (if (a =? b)%nat then s else 0) + load sizes' asg' b
-  | _, _ => 0
-  end.
+Definition contrib (sizes : list Q) (asg : list nat) (b : nat) (i : nat) : Q :=
+  if (nth i asg 0%nat =? b)%nat then nth i sizes 0 else 0.
+Definition load (sizes : list Q) (asg : list nat) (b : nat) : Q :=
+  sumQ (map (contrib sizes asg b) (seq 0 (length sizes))).
 
 Definition bin_raises (sizes : list Q) (cap : Q) : bool :=
   match sizes with
@@ -19,37 +18,39 @@ Definition bin_raises (sizes : list Q) (cap : Q) : bool :=
 (* asg : item -> bin is total (one entry per item: every item in exactly one bin), every entry is a bin number
    below k, no load exceeds the capacity, every bin 0..k-1 is used, the objective k cannot be below
    total/capacity (stated without division: total <= k * capacity), and OPTIMAL is claimed only for k <= 1
-   (k = 1 with at least one item, k = 0 with none: then k is trivially minimal, see bin_optimal_minimal). *)
-Definition bin_valid (sizes : list Q) (cap : Q) (asg : list nat) (k : nat) (st : status) : Prop :=
+   (k = 1 with at least one item, k = 0 with none: then k is trivially minimal, see bin_optimal_minimal).
+   `slack` is 0 for the property as stated; the code's fit test has the absolute tolerance _EPS = 1e-9, which is
+   what holds for arbitrary rationals (BinProofs: slack = eps in general, slack = 0 on a grid coarser than eps). *)
+Definition bin_valid (slack : Q) (sizes : list Q) (cap : Q) (asg : list nat) (k : nat) (st : status) : Prop :=
   length asg = length sizes /\
   Forall (fun b => (b < k)%nat) asg /\
-  (forall b, (b < k)%nat -> load sizes asg b <= cap) /\
+  (forall b, (b < k)%nat -> load sizes asg b <= cap + slack) /\
   (forall b, (b < k)%nat -> In b asg) /\
-  sumQ sizes <= inject_Z (Z.of_nat k) * cap /\
+  sumQ sizes <= inject_Z (Z.of_nat k) * (cap + slack) /\
   (st = OPTIMAL -> (k <= 1)%nat) /\
   (sizes <> [] -> (1 <= k)%nat).
 
-Definition bin_spec (sizes : list Q) (cap : Q) (o : bobs) : Prop :=
+Definition bin_spec (slack : Q) (sizes : list Q) (cap : Q) (o : bobs) : Prop :=
   match o with
   | None => bin_raises sizes cap = true
-  | Some (asg, k, st) => bin_raises sizes cap = false /\ bin_valid sizes cap asg k st
+  | Some (asg, k, st) => bin_raises sizes cap = false /\ bin_valid slack sizes cap asg k st
   end.
 
-Definition bin_check (sizes : list Q) (cap : Q) (o : bobs) : bool :=
+Definition bin_check (slack : Q) (sizes : list Q) (cap : Q) (o : bobs) : bool :=
   match o with
   | None => bin_raises sizes cap
   | Some (asg, k, st) =>
       negb (bin_raises sizes cap) &&
       (length asg =? length sizes)%nat &&
       forallb (fun b => (b <? k)%nat) asg &&
-      forallb (fun b => Qle_bool (load sizes asg b) cap) (seq 0 k) &&
+      forallb (fun b => Qle_bool (load sizes asg b) (cap + slack)) (seq 0 k) &&
       forallb (fun b => existsb (Nat.eqb b) asg) (seq 0 k) &&
-      Qle_bool (sumQ sizes) (inject_Z (Z.of_nat k) * cap) &&
+      Qle_bool (sumQ sizes) (inject_Z (Z.of_nat k) * (cap + slack)) &&
       (match st with OPTIMAL => (k <=? 1)%nat | FEASIBLE => true end) &&
       (match sizes with [] => true | _ => (1 <=? k)%nat end)
   end.
 
-Lemma bin_check_sound sizes cap o : bin_check sizes cap o = true -> bin_spec sizes cap o.
+Lemma bin_check_sound slack sizes cap o : bin_check slack sizes cap o = true -> bin_spec slack sizes cap o.
 Proof.
   destruct o as [[[asg k] st]|]; cbn [bin_check bin_spec]; [|intros H; exact H].
   intros H.
